@@ -7,7 +7,11 @@ model (coq/Text.v, coq/Dimacs.v):
  formulas   formulas of many families / transformation chains and hand-built ones
             -> the implementation writes them (with and without header / names, to a
             StringIO and to a file) -> the text must equal the model's text byte for
-            byte -> the implementation's reader and the model's reader must both give
+            byte, header fields and variable names with line breaks ("\n", "\r",
+            "\r\n") included (print_dimacs models the writer after the repair of D4;
+            a text equal to print_dimacs_as_found on such an input is the old defect
+            come back and is reported with its failing input)
+            -> the implementation's reader and the model's reader must both give
             back (n, clauses), under both newline conventions.  The shape of the text
             is also checked directly (one true problem line, comments, clause lines).
  texts      mostly valid texts with ONE mutation each, and fully random texts over the
@@ -17,6 +21,10 @@ model (coq/Text.v, coq/Dimacs.v):
             strip, print_Z on random tokens.
  unicode    exotic Unicode and raw bytes, implementation only: formula or ValueError.
  cli        (thorough) `cnfgen -q dimacs FILE` on a few texts.
+ cli-write  `cnfgen [-of dimacs] [-o FILE] <family> ...` and `cnfgen dimacs FILE` at
+            realistic sizes for every registered family (harness/fam_c0[123].py): the
+            bytes written must equal print_dimacs of the library object's header,
+            variable count and clauses.
 
 Any exception class other than ValueError, and any accepted text whose formula is
 not the one the (proved sound) model reads, is a failing input for the property."""
@@ -30,21 +38,21 @@ import lib
 from lib import cmd, Sym, import_impl, is_error
 
 META = dict(
-    technique='Coq theorems over a character-level model of writer and reader (dimacs_roundtrip_partial, print_shape_partial, '
-              'parse_sound; *_refuted witnesses for line breaks in header/names) + extracted-model differential check '
-              '(texts byte for byte, reader verdicts on mutated and random texts)',
+    technique='Coq theorems over a character-level model of writer and reader (dimacs_roundtrip, print_shape, parse_sound, for every '
+              'header and name list; *_refuted witnesses for the writer as found before the repair of D4) + extracted-model '
+              'differential check (texts byte for byte, reader verdicts on mutated and random texts, command-line output of every family)',
     category='proof',
-    text='Machine-checked theorems state, for every formula with literals in range, every header and name list without line '
-         'breaks and both newline conventions, that reading the written text gives back the number of variables and the clauses '
+    text='Machine-checked theorems state, for every formula with literals in range, every header and every list of variable names '
+         '(line breaks inside them included) and both newline conventions, that reading the written text gives back the number of variables and the clauses '
          'in order, that the output consists of comment lines, one problem line with the true counts and one line per clause, '
          'and, for every text, that an accepted text has exactly one problem line and denotes exactly the returned clauses with '
          'all literals in the declared range and the declared count; every other outcome of the model is ValueError. The model is '
          'tied to the code by comparing written texts byte for byte and reader verdicts (formula, or which ValueError at which '
          'line) on formulas of many families and on mutated / random texts.',
     note='Trusted: Coq kernel, extraction, OCaml driver, the harness. The model is hand-written and covers 8-bit characters; '
-         'agreement with the code is checked only on the inputs of the run (see input_distribution). Known deviation D4: a line '
-         'break in a header field or variable name is written raw (dimacs_header_newline_refuted). Integers of more than 4300 '
-         'digits are outside the theorems (Python refuses to print or read them).',
+         'agreement with the code is checked only on the inputs of the run (see input_distribution). D4 (a line break in a header '
+         'field or variable name written raw) is repaired in the code; the model follows the repaired writer and the old behaviour is '
+         'reported as a violation again. Integers of more than 4300 digits are outside the theorems (Python refuses to print or read them).',
     design_ref='5/C06',
 )
 RULE = ('formulas: one case per (formula, header?, names?, StringIO/file); texts: one case per (text, newline convention); a case '
@@ -201,6 +209,14 @@ ODD_TEXTS = [
 BREAK_TEXTS = ['two\nlines', 'cr\rinside', 'crlf\r\nhere', '\n', 'end\n', 'x\np cnf 1 0', 'x\n1 0']
 
 
+BREAK_ALPHA = ['\n', '\n', '\r', '\r', '\r\n', ' ', ' ', 'c', 'p', 'x', '1', '0', '-', ':', '\t', '\xe9', '\xa0', '\x85', '\x0b', '\x0c',
+               '\x1c', 'cnf', 'c ', '%']
+
+
+def break_text(r):
+    return ''.join(r.choice(BREAK_ALPHA) for _ in range(r.choice([1, 2, 3, 5, 8, 13])))
+
+
 def build_formulas(ctx, cnfgen, quick):
     """[(label, class, thunk)] -- thunks so that one failing generator does not stop the stream"""
     rng = ctx.rng
@@ -277,6 +293,25 @@ def build_formulas(ctx, cnfgen, quick):
             F.header['k' + txt] = 'v'
             return F
         add('line break in header key %d' % i, 'hand-break', brkk)
+
+    for i in range(40 if quick else 400):
+        def rbrk(seed=rng.randrange(1 << 30)):
+            import random
+            r = random.Random(seed)
+            F = CNF(description=break_text(r))
+            for _ in range(r.randint(0, 3)):
+                F.header[break_text(r)] = break_text(r)
+            for _ in range(r.randint(0, 3)):
+                try:
+                    F.new_variable(break_text(r))
+                except ValueError:      # a repeated name
+                    pass
+            if F.number_of_variables() < 2:
+                F.update_variable_number(2)
+            F.add_clause([1, -2])
+            F.add_clause([2])
+            return F
+        add('random fields with line breaks %d' % i, 'hand-break-random', rbrk)
 
     # random hand-built formulas
     for i in range(20 if quick else 120):
@@ -398,9 +433,16 @@ def run_formulas(ctx, cnfgen, quick):
         except Exception as e:  # noqa
             c['text'] = None
             c['wexc'] = [type(e).__name__, str(e)[:120]]
-        reqs.append(cmd('print_dimacs', opt(header_for_model(F) if c['header'] else None),
-                        opt(c['labels'] if c['names'] else None), c['n'], c['clauses']))
-    prints = ctx.model.batch(reqs)
+        margs = (opt(header_for_model(F) if c['header'] else None), opt(c['labels'] if c['names'] else None), c['n'], c['clauses'])
+        c['broken'] = has_break(F, c['header'], c['names'], c['labels'])
+        reqs.append(cmd('print_dimacs', *margs))
+        if c['broken']:
+            reqs.append(cmd('print_dimacs_as_found', *margs))
+    flat = iter(ctx.model.batch(reqs))
+    prints = []
+    for c in cases:
+        prints.append(next(flat))
+        c['as_found'] = next(flat) if c['broken'] else None
     # phase 2: read the implementation's text with both readers, both conventions
     reqs = []
     for c in cases:
@@ -416,7 +458,7 @@ def run_formulas(ctx, cnfgen, quick):
         key = (c['label'], c['header'], c['names'], c['to_file'])
         ctx.count('formulas', key, nontrivial=len(c['clauses']) > 0, sample=dict(descr, clauses='...'))
         ctx.tally('options', 'header=%s names=%s' % (c['header'], c['names']))
-        broken = has_break(c['F'], c['header'], c['names'], c['labels'])
+        broken = c['broken']
         ctx.tally('line break in header/name', broken)
         if c['text'] is None:
             ctx.disagreements_checked += 1
@@ -432,42 +474,41 @@ def run_formulas(ctx, cnfgen, quick):
             mpar = None
         defect = shape_defect(text, c['n'], c['clauses'])
         roundtrip_ok = got[0] == want and got[1] == want
-        if is_error(mp):
+        if is_error(mp) or (broken and is_error(c['as_found'])):
             ctx.violation('correspondence', 'model error', dict(input=descr, model=mp), False, site='model-error', cls='print')
             continue
         same_text = (mp == text)
-        if broken:
-            # class of the known deviation D4: either the code still behaves as the faithful model says (finding),
-            # or it has been repaired and the property holds on this input; anything else is a new break
-            if same_text and not (roundtrip_ok and defect is None):
-                ctx.violation('counterexample',
-                              'a line break inside a header field or variable name is written raw: the DIMACS output has a '
-                              'non-comment line that is neither the problem line nor a clause, and the reader does not give the formula back',
-                              dict(input=descr, text=text[:400], read_back=got, shape=defect,
-                                   theorem='dimacs_header_newline_refuted / print_shape_refuted'),
-                              True, site=FINDING_SITE, cls=FINDING_CLS)
-                continue
-            if roundtrip_ok and defect is None:
-                ctx.tally('line-break inputs on which the property holds', True)
-                continue
-            ctx.disagreements_checked += 1
-            ctx.violation('counterexample', 'round trip / shape fails on a header or name with a line break, and not the way the model predicts',
-                          dict(input=descr, text=text[:400], model_text=mp[:400], read_back=got, shape=defect), True,
-                          site='to_dimacs_file', cls='line-break-other')
-            continue
+        old_text = broken and c['as_found'] == text       # the writer as it was before the repair of D4
         if not roundtrip_ok or defect is not None:
             ctx.disagreements_checked += 1
             bad = got[0] if got[0] != want else got[1]
-            kind = 'raises-' + bad[1] if bad[0] == 'exc' else 'roundtrip' if not roundtrip_ok else 'shape'
-            ctx.violation('counterexample', 'DIMACS round trip or output shape fails: %s' % (defect or bad[:2]),
-                          dict(input=descr, text=text[:400], read_back=[g if g != want else 'same formula' for g in got], shape=defect),
-                          True, site='dimacs-roundtrip', cls=kind)
+            if old_text:
+                ctx.violation('counterexample',
+                              'a line break inside a header field or variable name is written raw again (the text is the one of '
+                              'print_dimacs_as_found): the DIMACS output has a non-comment line that is neither the problem line nor a '
+                              'clause%s' % ('' if roundtrip_ok else ', and cnfgen\'s own reader does not give the formula back'),
+                              dict(input=descr, text=text[:400], expected_text=mp[:400], read_back=got, shape=defect,
+                                   theorem='dimacs_roundtrip / print_shape hold of print_dimacs; dimacs_header_newline_refuted / '
+                                           'print_shape_refuted describe this text'),
+                              True, site=FINDING_SITE, cls=FINDING_CLS)
+            elif broken:
+                ctx.violation('counterexample', 'round trip / shape fails on a header or name with a line break: %s' % (defect or bad[:2]),
+                              dict(input=descr, text=text[:400], model_text=mp[:400], read_back=got, shape=defect), True,
+                              site='to_dimacs_file', cls='line-break-other')
+            else:
+                kind = 'raises-' + bad[1] if bad[0] == 'exc' else 'roundtrip' if not roundtrip_ok else 'shape'
+                ctx.violation('counterexample', 'DIMACS round trip or output shape fails: %s' % (defect or bad[:2]),
+                              dict(input=descr, text=text[:400], read_back=[g if g != want else 'same formula' for g in got], shape=defect),
+                              True, site='dimacs-roundtrip', cls=kind)
             continue
+        if broken:
+            ctx.tally('line-break inputs on which the property holds', True)
         if not same_text:
             ctx.disagreements_checked += 1
             i = next((j for j in range(min(len(mp), len(text))) if mp[j] != text[j]), min(len(mp), len(text)))
-            ctx.violation('correspondence', 'DIMACS text differs from the model (Dimacs.v print_dimacs) although it reads back correctly; '
-                          'theorems dimacs_roundtrip_partial / print_shape_partial no longer cover the code',
+            ctx.violation('correspondence', 'DIMACS text differs from the model (Dimacs.v print_dimacs) although it reads back correctly%s; '
+                          'theorems dimacs_roundtrip / print_shape no longer cover the code'
+                          % (' (it is the text of the writer before the repair of D4, harmless on this input)' if old_text else ''),
                           dict(input=descr, first_difference_at=i, implementation=text[max(0, i - 40):i + 60],
                                model=mp[max(0, i - 40):i + 60], correspondence='Dimacs.v print_dimacs <-> to_dimacs_file'),
                           False, site='to_dimacs_file', cls='text-differs')
